@@ -2,7 +2,8 @@
 //! real `nitrogql generate` -> emitted declaration files read by the TS-subset reader (syntax only).
 //! Emits one event per case with the ASTs; all meaning is decided by the TLA+ trace specs.
 use crate::cli::run_project;
-use crate::render::{render_op_doc, render_ts_doc};
+use crate::render::{Layout, render_op_doc, render_ts_doc};
+use std::collections::HashMap;
 use crate::tsread::read_ts;
 use crate::util::*;
 use serde_json::{Value, json};
@@ -23,6 +24,61 @@ pub fn parse_ts_type(text: &str) -> Value {
         }
         Err(_) => json!({"k": "raw", "tokens": [text]}),
     }
+}
+
+fn comps(p: &str) -> Vec<String> {
+    p.split('/').filter(|x| !x.is_empty() && *x != ".").map(|x| x.to_string()).collect()
+}
+
+fn lc(pos: &HashMap<String, (usize, usize)>, tag: &str) -> Value {
+    match pos.get(tag) {
+        Some((l, c)) => json!([l, c]),
+        None => json!([-1, -1]),
+    }
+}
+
+/// token table of a rendered file plus, per definition, where its keyword / name / member names were placed (from the renderer's tags)
+fn input_record(path: &str, kind: &str, defs: &[Value], lay: &Layout) -> Value {
+    let pos: HashMap<String, (usize, usize)> = lay.positions.iter().map(|(t, l, c)| (t.clone(), (*l, *c))).collect();
+    let tokens: Vec<Value> = lay.tokens.iter().map(|(l, c, t)| json!([l, c, t])).collect();
+    let mut ann = vec![];
+    for (i, d) in defs.iter().enumerate() {
+        let p = format!("defs.{i}");
+        let kw = lc(&pos, &format!("{p}.pos"));
+        let first = if pos.contains_key(&format!("{p}.extPos")) { lc(&pos, &format!("{p}.extPos")) } else { kw.clone() };
+        let list = |key: &str| -> Vec<Value> {
+            d[key].as_array().map(|a| (0..a.len()).map(|j| lc(&pos, &format!("{p}.{key}.{j}.pos"))).collect()).unwrap_or_default()
+        };
+        ann.push(json!({"k": d["k"], "name": d.get("name").cloned().unwrap_or(json!("")), "first": first, "kw": kw, "namePos": lc(&pos, &format!("{p}.namePos")),
+                        "fields": list("fields"), "fieldNames": d["fields"].as_array().map(|a| a.iter().map(|f| f["name"].clone()).collect::<Vec<_>>()).unwrap_or_default(),
+                        "inputFields": list("inputFields"), "inputFieldNames": d["inputFields"].as_array().map(|a| a.iter().map(|f| f["name"].clone()).collect::<Vec<_>>()).unwrap_or_default(),
+                        "values": list("values")}));
+    }
+    json!({"path": comps(path), "kind": kind, "tokens": tokens, "ann": ann})
+}
+
+fn utf16_line_lens(text: &str) -> Vec<usize> {
+    text.split('\n').map(|l| l.encode_utf16().count()).collect()
+}
+
+fn cps(s: &str) -> Vec<u32> {
+    s.chars().map(|c| c as u32).collect()
+}
+
+fn map_record(gen_rel: &str, gen_text: &str, map_text: &str) -> Value {
+    let m = match serde_json::from_str::<Value>(map_text) {
+        Ok(m) if m.is_object() => m,
+        _ => return json!({"gen": comps(gen_rel), "lineLens": utf16_line_lens(gen_text), "map": {"k": "bad-json"}}),
+    };
+    let strings_ok = |v: &Value| v.as_array().map(|a| a.iter().all(|x| x.is_string())).unwrap_or(false);
+    if !(m["version"].is_i64() && strings_ok(&m["sources"]) && strings_ok(&m["names"]) && m["mappings"].is_string()) {
+        return json!({"gen": comps(gen_rel), "lineLens": utf16_line_lens(gen_text), "map": {"k": "bad-shape"}});
+    }
+    json!({"gen": comps(gen_rel), "lineLens": utf16_line_lens(gen_text),
+           "map": {"k": "ok", "version": m["version"], "mappings": cps(m["mappings"].as_str().unwrap()),
+                   "sources": m["sources"].as_array().unwrap().iter().map(|s| json!(comps(s.as_str().unwrap()))).collect::<Vec<_>>(),
+                   "sourcesRaw": m["sources"], "names": m["names"],
+                   "file": m.get("file").cloned().unwrap_or(json!(""))}})
 }
 
 fn star_import(ast: &Value) -> String {
@@ -70,14 +126,27 @@ pub fn run(args: &[String]) -> i32 {
                 }
                 let c = &cases[i];
                 let mut files: Vec<(String, String)> = vec![("graphql.config.yaml".into(), c["configText"].as_str().unwrap().to_string())];
+                let want_maps = c["want"]["maps"] == true;
+                let mut inputs = vec![];
                 for f in c["schemaFiles"].as_array().unwrap() {
-                    files.push((strs(&f["path"]).join("/"), render_ts_doc(&json!({"defs": f["items"]})).0));
+                    let rel = strs(&f["path"]).join("/");
+                    let (text, _, lay) = render_ts_doc(&json!({"defs": f["items"]}));
+                    if want_maps {
+                        inputs.push(input_record(&rel, "schema", f["items"].as_array().unwrap(), &lay));
+                    }
+                    files.push((rel, text));
                 }
                 let mut op_names = vec![];
                 for f in c["opFiles"].as_array().map(|a| a.as_slice()).unwrap_or(&[]) {
                     let rel = strs(&f["path"]).join("/");
                     op_names.push(rel.clone());
-                    files.push((rel, render_op_doc(&f["doc"]).0));
+                    let (text, _, lay) = render_op_doc(&f["doc"]);
+                    if want_maps {
+                        // tags of op documents count non-import definitions only when rendering; annotate with the same indices
+                        let defs: Vec<Value> = f["doc"]["defs"].as_array().unwrap().clone();
+                        inputs.push(input_record(&rel, "operation", &defs, &lay));
+                    }
+                    files.push((rel, text));
                 }
                 if op_names.is_empty() {
                     files.push(("ops/q.graphql".into(), "query Q { __typename }\n".into()));
@@ -91,9 +160,10 @@ pub fn run(args: &[String]) -> i32 {
                 e["exit"] = json!(run.exit);
                 e["panicked"] = json!(run.panicked());
                 e["diag"] = json!(if run.exit != 0 || run.panicked() { format!("{}\n{}", run.stdout.chars().take(1500).collect::<String>(), run.stderr.chars().take(800).collect::<String>()) } else { String::new() });
-                e["schemaTs"] = read_file(&written, "gen/schema.d.ts");
-                e["preludeOk"] = json!(written.get("gen/schema.d.ts").map(|t| t.contains(PRELUDE)).unwrap_or(false));
-                e["resolversTs"] = read_file(&written, "gen/resolvers.d.ts");
+                let schema_rel = c["schemaOutRel"].as_str().unwrap_or("gen/schema.d.ts");
+                e["schemaTs"] = read_file(&written, schema_rel);
+                e["preludeOk"] = json!(written.get(schema_rel).map(|t| t.contains(PRELUDE)).unwrap_or(false));
+                e["resolversTs"] = read_file(&written, c["resolversOutRel"].as_str().unwrap_or("gen/resolvers.d.ts"));
                 let mut ops = vec![];
                 for rel in &op_names {
                     let stem = rel.strip_suffix(".graphql").unwrap_or(rel);
@@ -118,6 +188,16 @@ pub fn run(args: &[String]) -> i32 {
                     }
                 }
                 e["scalars"] = Value::Object(sc);
+                if want_maps {
+                    e["inputs"] = json!(inputs);
+                    let mut maps = vec![];
+                    for (name, text) in written.iter() {
+                        if let Some(gfile) = name.strip_suffix(".map") {
+                            maps.push(map_record(gfile, written.get(gfile).map(|s| s.as_str()).unwrap_or(""), text));
+                        }
+                    }
+                    e["maps"] = json!(maps);
+                }
                 if c["keepTexts"] == true {
                     e["texts"] = json!(written);
                     e["inputs"] = json!(files.iter().map(|(a, b)| json!({"rel": a, "text": b})).collect::<Vec<_>>());
